@@ -359,6 +359,38 @@ def first_optional_rt(x, i1, i2, i3, i4):
             if type(back.soft_) is not type(obj.soft_) or type(back.ws) is not type(obj.ws): return False
     return True
 ''')
+    mo.pre('''
+from typing import TypedDict, NotRequired
+class TDo(TypedDict, total=False):
+    title: Optional[str]
+    n: Optional[int]
+    tags: Optional[List[int]]
+class TDr(TypedDict):
+    a: int
+    title: NotRequired[Optional[str]]
+TD_RS = [six_retorts([]), six_retorts([name_mapping(TDr, map={"title": "t"}), name_mapping(TDo, map={"title": ("m", "t")})])]
+TD_LD = [{(T, k): r.get_loader(T) for T in (TDo, TDr, List[TDo]) for k, r in rs.items()} for rs in TD_RS]
+TD_DP = [{(T, k): r.get_dumper(T) for T in (TDo, TDr, List[TDo]) for k, r in rs.items()} for rs in TD_RS]
+def typeddict_rt(x, i1, i2, i3):
+    v = {}
+    t = ("MISSING", None, "", "s")[pick(i1, 4)]
+    n = ("MISSING", None, 0, x)[pick(i2, 4)]
+    g = ("MISSING", None, [], [x])[pick(i3, 4)]
+    if t != "MISSING": v["title"] = t
+    if n != "MISSING": v["n"] = n
+    if g != "MISSING": v["tags"] = g
+    r = {"a": x}
+    if t != "MISSING": r["title"] = t
+    for rc in (0, 1):
+        for k in TD_RS[rc]:
+            for T, val in ((TDo, v), (TDr, r), (List[TDo], [v, {}])):
+                back = TD_LD[rc][(T, k)](TD_DP[rc][(T, k)](val))
+                if back != val: return False
+    return True
+''')
+    mo.ob("typeddict_optional_keys_rt", "x: int, i1: int, i2: int, i3: int", "return typeddict_rt(x, i1, i2, i3)", pre=["0 <= i1 < 4 and 0 <= i2 < 4 and 0 <= i3 < 4"], timeout=tmo,
+          family="round trip of TypedDicts with non-required Optional keys: missing, None, falsy and ordinary values are four different things",
+          bounds="3 optional keys x (missing, None, falsy, value with a symbolic int); total=False and NotRequired; plain and renamed / nested keys; also inside a list; 6 modes")
     mo.ob("first_optional_rt", "x: int, i1: int, i2: int, i3: int, i4: int", "return first_optional_rt(x, i1, i2, i3, i4)",
           pre=["0 <= i1 < 4 and 0 <= i2 < 3 and 0 <= i3 < 4 and 0 <= i4 < 3"], timeout=tmo,
           family="round trip of a model whose first field is optional with a non-None default and a key that differs from its id; factory default without a literal form",
